@@ -148,7 +148,7 @@ def run(tier, seed):
     rnd = random.Random(seed)
     pid = os.getpid()
     # (i) all short strings
-    maxlen, shards = (4, 16) if tier == "quick" else (5, 16)
+    maxlen, shards = (4, 16) if tier == "quick" else (4, 1)
     shard = seed % shards
     cfg = write_cfg("Syntax-short-%d.cfg" % pid, "ShortInit", "Stutter", maxlen, shard, shards, ["EmitIn"])
     try:
@@ -169,6 +169,23 @@ def run(tier, seed):
         chk.notes.append("short strings: %d of the shard's %d replayed (all in-language ones)" % (len(keep), len(strings)))
         strings = keep
     check_strings(chk, "all-strings-len<=%d-shard%d/%d" % (maxlen, shard, shards), strings)
+    if tier == "thorough":
+        # length 5: 23^5 strings are too many for one TLC set; a 1/32 systematic shard (chosen by the seed)
+        # is enumerated here and classified by TLC through the JSON mode of spec/Syntax.tla
+        sh5 = seed % 32
+        five = [list(s5) for s5 in itertools.product(ALL, repeat=5) if hash_str(s5) % 32 == sh5]
+        fn = os.path.join(tlc.WORK, "C10-five-%d.json" % pid)
+        with open(fn, "w") as f:
+            json.dump(five, f)
+        cfg = write_cfg("Syntax-five-%d.cfg" % pid, "JsonInit", "Stutter", 99, 0, 1, ["EmitIn"])
+        try:
+            res = tlc.run("Syntax", os.path.basename(cfg), env={"STRS_FILE": fn}, tag="syn-five-%d" % pid)
+        finally:
+            os.unlink(cfg)
+            os.unlink(fn)
+        chk.add_tlc(res, ["InLanguage (1/32 of all token strings of length 5)"])
+        inl5 = {tuple(r["toks"]): r["clauses"] for r in res.records}
+        check_strings(chk, "all-strings-len5-shard%d/32" % sh5, [(s5, tuple(s5) in inl5, inl5.get(tuple(s5), []), "short5") for s5 in five])
     # (ii) generator
     dl = 7 if tier == "quick" else 8
     cfg = write_cfg("Syntax-derive-%d.cfg" % pid, "DeriveInit", "Derive", dl, 0, 1, ["GeneratorSound", "EmitIn"])
